@@ -43,6 +43,78 @@ def make(rng, tier, big):
     sc.deflate_negotiated = deflate
     return sc, expected, items
 
+RECV_BUF = 65536    # size of one recv (limit_chunks' default; lomond's session reads at most 64 KiB at a time)
+
+
+def _frag_size(rng, stratum=None):
+    """fragment payload size anywhere from 0 up to a whole receive buffer"""
+    if stratum is not None:
+        return stratum
+    r = rng.random()
+    if r < 0.4:
+        return max(0, min(RECV_BUF, (1 << rng.randint(7, 16)) + rng.choice([-1, 0, 1])))
+    if r < 0.7:
+        return int(2 ** rng.uniform(0, 16))
+    if r < 0.85:
+        return RECV_BUF - rng.randint(0, 16)
+    return rng.choice([0, 1, 125, 126, 127])
+
+
+def make_recvbuf(rng, stratum=None):
+    """a fragmented data message whose frames are never cut by the transport: every frame (or its header and its payload separately)
+    arrives whole inside one recv, fragments of every size up to the receive buffer size, the later frames (controls between the
+    fragments, the final fragment, a following message) arrive in LATER recvs that reuse the same receive buffer"""
+    sc = Scenario([], prate=0)
+    kind = rng.choice(['text', 'binary'])
+    nfr = rng.choice([2, 2, 3, 4])
+    szs = [_frag_size(rng, stratum if i == 0 else None) for i in range(nfr)]
+    if stratum is not None and rng.random() < 0.5:
+        szs[-1] = stratum        # final fragment as large as the first: the later recv overwrites the same region
+    total = sum(szs)
+    payload = gen_core.rand_text(rng, total) if kind == 'text' else gen_core.rand_bytes(rng, total)
+    frags, o = [], 0
+    for n in szs:
+        frags.append(payload[o:o + n]); o += n
+    between = [[gen_core.gen_control(rng) for _ in range(rng.choice([0, 1, 1, 2]))] for _ in frags[:-1]]
+    items = []
+    if rng.random() < 0.3:
+        items.append(gen_core.gen_item(rng))
+    items.append(gen_core.Item(kind, payload, frags, between))
+    k2 = rng.choice(['text', 'binary'])
+    n2 = _frag_size(rng)
+    p2 = gen_core.rand_text(rng, n2) if k2 == 'text' else gen_core.rand_bytes(rng, n2)
+    items.append(gen_core.Item(k2, p2, [p2], []))
+    if rng.random() < 0.5:
+        items.append(gen_core.gen_control(rng))
+    if rng.random() < 0.4:
+        items.append(gen_core.gen_close(rng))
+    # atoms: byte strings the transport does not cut
+    atoms = [sc.good_reply()]
+    hp = rng.choice(['never', 'never', 'some', 'always'])      # frame header and payload in separate recvs?
+    for it in items:
+        for fr in gen_core.serialise_item(rng, it):
+            n = fr[1] & 0x7f
+            hl = 2 if n < 126 else (4 if n == 126 else 10)
+            sep = len(fr) > RECV_BUF or (len(fr) > hl and (hp == 'always' or (hp == 'some' and rng.random() < 0.5)))
+            atoms += [fr[:hl], fr[hl:]] if sep else [fr]
+    join = rng.choice(['each', 'each', 'pack', 'coin'])
+    chunks = []
+    for a in atoms:
+        if chunks and len(chunks[-1]) + len(a) <= RECV_BUF and (join == 'pack' or (join == 'coin' and rng.random() < 0.5)):
+            chunks[-1] += a
+        else:
+            chunks.append(a)
+    assert all(0 < len(c) <= RECV_BUF for c in chunks)
+    sc.env = reads(chunks) + [('wait', 1, ('eof',))]
+    expected = []
+    for it in items:
+        expected += it.expected()
+    return sc, expected, szs, join, hp
+
+
+def _recv_sizes(js):
+    return [len(st[2][1]) // 2 for st in js['env'] if st[0] == 'wait' and st[2] and st[2][0] == 'data'][:40]
+
 
 def explore(res, tier, seed, model_ok=True):
     import gencheck   # differential test of the translated code (Generated/Code.lean) against the original Python
@@ -52,6 +124,7 @@ def explore(res, tier, seed, model_ok=True):
     nbig = 30 if tier == 'quick' else 300
     res.rule = ('conforming server streams: 1-6 items (text/binary fragmented incl. empty fragments, ping/pong between fragments, final close), '
                 'per-frame length form (minimal or non-minimal 16/64-bit), payload sizes from boundary sets, random segmentation; '
+                'plus a family whole_frames_per_recv: a message of 2-4 fragments (sizes 0 .. 65536: powers of two and neighbours, log-uniform, near the receive buffer size) with controls between them and a following message, the transport never cutting a frame (each frame, or header and payload apart, whole in one recv; recvs each/packed/random joins), compared with the model too; '
                 'expected events computed by the independent encoder; non-trivial = stream with a fragmented message or a non-minimal length or a boundary size; distinct by stream+segmentation')
     scs, exps, nts = [], [], []
     for i in range(n + nbig):
@@ -89,6 +162,18 @@ def explore(res, tier, seed, model_ok=True):
         sc.env = reads(limit_chunks([data])) + [('wait', 1, ('eof',))]
         scs.append(sc); exps.append(['E:binary:' + big1.hex(), 'E:text:' + t2.hex(), 'E:ping:' + b'end'.hex()]); nts.append(True)
         res.count('message_over_1MiB')
+    # frames that the transport never cuts: fragments of every size up to a whole receive buffer, each arriving in one recv, the
+    # rest of the message in later recvs (the session hands the parser views of ONE reused receive buffer; the harness poisons it
+    # before every recv, so a fragment kept by reference instead of by value shows up as a wrong payload)
+    strata = [1 << k for k in range(9, 16)] + [RECV_BUF - 10, RECV_BUF]
+    if tier != 'quick':
+        strata = sorted(set(strata + [(1 << k) + d for k in range(7, 16) for d in (-1, 1)] + [3 << k for k in range(7, 15)]))
+    for i in range(len(strata) + (16 if tier == 'quick' else 500)):
+        sc, exp, szs, join, hp = make_recvbuf(rng, strata[i] if i < len(strata) else None)
+        scs.append(sc); exps.append(exp); nts.append(True)
+        res.count('whole_frames_per_recv')
+        res.count('whole_frames_per_recv:largest_fragment_2^%d' % max(szs).bit_length())
+        res.count('whole_frames_per_recv:join=%s:header_apart=%s' % (join, hp))
     pairs = coreutil.run_pairs(scs, model_ok)
     for (js, line, real, model), exp, nt in zip(pairs, exps, nts):
         if isinstance(real, dict):
@@ -101,10 +186,11 @@ def explore(res, tier, seed, model_ok=True):
         evs = [e for e in events(real) if e.split(':')[1] in ('text', 'binary', 'ping', 'pong', 'closing', 'closed', 'protocol_error')]
         if evs != exp:
             k = next((i for i, (a, b) in enumerate(zip(evs, exp)) if a != b), min(len(evs), len(exp)))
-            res.failures.append(dict(cls='delivery', what='delivered events differ from what was sent at index %d' % k, input=line[:3000], scenario=js,
+            # input = the whole scenario (replayable with ./check C01 --replay); the recv sizes are repeated in the text
+            res.failures.append(dict(cls='delivery', what='delivered events differ from what was sent at index %d (server bytes arrive in recvs of %s bytes)' % (k, _recv_sizes(js)), input=js, scenario=js,
                                      observed=[e[:120] for e in evs[k:k + 3]], expected=[e[:120] for e in exp[k:k + 3]]))
         if 'MUTATED' in real:
-            res.failures.append(dict(cls='aliasing', what='an event payload changed after it was yielded', input=line[:3000], scenario=js))
+            res.failures.append(dict(cls='aliasing', what='an event payload changed after it was yielded', input=js, scenario=js))
     # two connections alive at the same time in one process (two WebSocket objects, event loops advanced alternately): each must
     # deliver exactly what it delivers alone - nothing (receive buffers, validators, parsers) may be shared between sessions
     duos, dmeta = [], []
